@@ -1059,13 +1059,17 @@ fn get_quote_trait_params<'a>(input: &DataType, ctx: &'a ImplContext) -> QuoteTr
         inner_attr: ctx.struct_attr.inner_attribute.as_ref(), 
         dst: ctx.dst_ty, 
         src: ctx.src_ty, 
-        these_gens: input.get_generics().to_token_stream(),
+        // the deriving type's parameters are declared on the impl (bounds kept, defaults dropped) and applied to the
+        // type in argument form; its own where clause is carried next to the #[where_clause(...)] predicates
+        these_gens: input.get_generics().split_for_impl().1.to_token_stream(),
         those_gens: ctx.struct_attr.ty.generics.to_token_stream(),
-        impl_gens: impl_gens.to_token_stream(), 
-        where_clause: input.get_attrs().where_attr(&ctx.struct_attr.ty).map(|x| {
-            let where_clause = &x.where_clause;
-            quote!(where #where_clause)
-        }), 
+        impl_gens: impl_gens.split_for_impl().0.to_token_stream(),
+        where_clause: {
+            let own = input.get_generics().where_clause.iter().flat_map(|x| x.predicates.iter()).map(|x| x.to_token_stream());
+            let dedicated = input.get_attrs().where_attr(&ctx.struct_attr.ty).into_iter().flat_map(|x| x.where_clause.iter()).map(|x| x.to_token_stream());
+            let predicates: Vec<TokenStream> = own.chain(dedicated).collect();
+            (!predicates.is_empty()).then(|| quote!(where #(#predicates),*))
+        },
         r: ctx.kind.is_ref().then_some(if ref_lts.is_empty() { quote!(&) } else { quote!(&'o2o) }) 
     }
 }
